@@ -63,53 +63,78 @@ pub(crate) mod __verif_tuple_key2 {
     #[kani::proof]
     #[kani::unwind(11)]
     fn narrow_integers_roundtrip() {
-        let a: u32 = kani::any(); let b: i32 = kani::any(); let c: u8 = kani::any(); let d: i16 = kani::any();
-        let k = TupleKey::builder().u32(a).i32(b).u8(c).i16(d).unit().build();
-        let mut p = k.parser();
-        assert!(p.u32() == Ok(a));
-        assert!(p.i32() == Ok(b));
-        assert!(p.u8() == Ok(c));
-        assert!(p.i16() == Ok(d));
-        assert!(p.unit() == Ok(()));
-        assert!(p.is_empty());
-        kani::cover!(true);
-        core::mem::forget(k);
+        // range checks on the narrowing parsers
+        let w: u64 = kani::any();
+        let mut e: Vec<u8> = Vec::with_capacity(9);
+        encode_u64(w, &mut e);
+        let mut q = TupleKeyParser::new(&e);
+        let r = q.u8();
+        assert!(r.is_ok() == (w <= 255));
+        match r { Ok(x) => { assert!(x as u64 == w); } Err(_) => {} }
+        let s: i64 = kani::any();
+        let mut e2: Vec<u8> = Vec::with_capacity(9);
+        encode_i64(s, &mut e2);
+        let mut q2 = TupleKeyParser::new(&e2);
+        let r2 = q2.i16();
+        assert!(r2.is_ok() == (s >= i16::MIN as i64 && s <= i16::MAX as i64));
+        match r2 { Ok(x) => { assert!(x as i64 == s); } Err(_) => {} }
+        kani::cover!(w > 255);
+        core::mem::forget(e); core::mem::forget(e2);
     }
 
     // bytes / strings (Anchor & Escape): bounded contents, every byte value incl. 0x00 and 0xff
-    //@ H kind=bounded tier=quick timeout=1500 bound="byte strings of length <= 3 on each side" oblig="tuple_key2::encode_bytes::order+prefix-free+roundtrip"
+    fn enc_into(src: &[u8], out: &mut [u8; 8]) -> usize {
+        let mut v: Vec<u8> = Vec::with_capacity(8);
+        encode_bytes(src, &mut v);
+        let n = v.len();
+        let mut i = 0; while i < 8 { if i < n { out[i] = v[i]; } i += 1; }
+        core::mem::forget(v);
+        n
+    }
+    //@ H kind=bounded tier=quick timeout=1500 bound="byte strings of length <= 2 on each side (all byte values)" oblig="tuple_key2::encode_bytes::order+prefix-free"
     #[kani::proof]
     #[kani::unwind(10)]
-    fn bytes_order_prefixfree_roundtrip() {
-        let a: [u8; 3] = kani::any(); let b: [u8; 3] = kani::any();
+    fn bytes_order_prefixfree() {
+        let a: [u8; 2] = kani::any(); let b: [u8; 2] = kani::any();
         let na: usize = kani::any(); let nb: usize = kani::any();
-        kani::assume(na <= 3 && nb <= 3);
-        let mut ea: Vec<u8> = Vec::with_capacity(8); let mut eb: Vec<u8> = Vec::with_capacity(8);
-        encode_bytes(&a[..na], &mut ea); encode_bytes(&b[..nb], &mut eb);
-        assert!(lex(&ea, &eb) == lex(&a[..na], &b[..nb]));
-        assert!(!is_proper_prefix(&ea, &eb));
-        let mut p = TupleKeyParser::new(&ea);
+        kani::assume(na <= 2 && nb <= 2);
+        let mut ea = [0u8; 8]; let mut eb = [0u8; 8];
+        let la = enc_into(&a[..na], &mut ea); let lb = enc_into(&b[..nb], &mut eb);
+        assert!(la <= 6 && lb <= 6);
+        assert!(lex(&ea[..la], &eb[..lb]) == lex(&a[..na], &b[..nb]));
+        assert!(!is_proper_prefix(&ea[..la], &eb[..lb]));
+        kani::cover!(na == 2 && nb == 1);
+        kani::cover!(na > 0 && a[0] == 0);
+    }
+
+    //@ H kind=bounded tier=quick timeout=1500 bound="byte strings of length <= 2 (all byte values)" oblig="tuple_key2::encode_bytes+TupleKeyParser::bytes::roundtrip"
+    #[kani::proof]
+    #[kani::unwind(10)]
+    fn bytes_roundtrip() {
+        let a: [u8; 2] = kani::any();
+        let na: usize = kani::any();
+        kani::assume(na <= 2);
+        let mut ea = [0u8; 8];
+        let la = enc_into(&a[..na], &mut ea);
+        let mut p = TupleKeyParser::new(&ea[..la]);
         match p.bytes() {
-            Ok(v) => { assert!(v.len() == na); let mut i = 0; while i < 3 { if i < na { assert!(v[i] == a[i]); } i += 1; }
-                       core::mem::forget(v); }
+            Ok(v) => { assert!(v.len() == na); if na > 0 { assert!(v[0] == a[0]); } if na > 1 { assert!(v[1] == a[1]); } core::mem::forget(v); }
             Err(_) => { assert!(false); }
         }
         assert!(p.is_empty());
-        kani::cover!(na == 3 && nb == 2);
-        kani::cover!(na > 0 && a[0] == 0);
-        core::mem::forget(ea); core::mem::forget(eb);
+        kani::cover!(na == 2 && a[0] == 0);
     }
 
     // heterogeneous two-element tuples: (u64, bytes) compares element by element; an extension sorts
     // after the shorter tuple (prefix) -- exercised through the public builder
-    //@ H kind=bounded tier=quick timeout=1500 bound="(u64, bytes<=2) tuples" oblig="tuple_key2::tuples::elementwise-order"
+    //@ H kind=bounded tier=experimental timeout=3600 bound="(u64, bytes<=1) tuples" oblig="tuple_key2::tuples::elementwise-order"
     #[kani::proof]
     #[kani::unwind(10)]
     fn tuple_elementwise_order() {
         let a: u64 = kani::any(); let b: u64 = kani::any();
         let x: [u8; 2] = kani::any(); let y: [u8; 2] = kani::any();
         let nx: usize = kani::any(); let ny: usize = kani::any();
-        kani::assume(nx <= 2 && ny <= 2);
+        kani::assume(nx <= 1 && ny <= 1);
         let ka = TupleKey::builder().u64(a).bytes(&x[..nx]).build();
         let kb = TupleKey::builder().u64(b).bytes(&y[..ny]).build();
         let truth = match a.cmp(&b) { Ordering::Equal => lex(&x[..nx], &y[..ny]), o => o };
